@@ -1,5 +1,6 @@
 #!/bin/bash
-# sensitivity.sh [-t] [name...]  - apply each planted bug (selftest/planted/<prop>-<name>.diff, or
+# sensitivity.sh [-t] [name[@C09,C10]...]  - "silent:<name>" takes selftest/silent/<name>.diff (behaviour-preserving edits, expect exit 0);
+# apply each planted bug (selftest/planted/<prop>-<name>.diff, or
 # seeded/<id>/patch.diff with "seeded:<id>") to a scratch copy of /repo and run the owning
 # check's quick tier against it. Expect exit 1. -t also runs the pinned test suite on the copy.
 export GOFLAGS=-mod=mod GOPROXY=off GOSUMDB=off GOTOOLCHAIN=local
@@ -10,8 +11,11 @@ if [ ${#names[@]} -eq 0 ]; then for f in selftest/planted/*.diff; do names+=("$(
 /verif/run.sh setup >/dev/null 2>&1
 printf "%-40s %-6s %-7s %-6s %s\n" planted prop tests exit first-violation
 for n in "${names[@]}"; do
+  over=""; if [[ "$n" == *@* ]]; then over="${n#*@}"; n="${n%%@*}"; fi   # name@C09,C10 = run these checks instead
   if [[ "$n" == seeded:* ]]; then id="${n#seeded:}"; diff="/verif/seeded/$id/patch.diff"; props=$(python3 -c "import json;m=json.load(open('/verif/seeded/$id/meta.json'));print(' '.join(m.get('checks') or [m['property']]))");
+  elif [[ "$n" == silent:* ]]; then diff="/verif/selftest/silent/${n#silent:}.diff"; props="${n#silent:}"; props="${props%%-*}";   # behaviour-preserving edits: expect exit 0
   else diff="/verif/selftest/planted/$n.diff"; props="${n%%-*}"; fi
+  [ -n "$over" ] && props="${over//,/ }"
   T=$(mktemp -d /tmp/verif-mut-XXXXXX)
   cp -r /repo "$T/repo"; rm -rf "$T/repo/.git"
   if ! (cd "$T/repo" && git apply "$diff") 2>"$T/apply.err"; then printf "%-40s %-6s %s\n" "$n" "$props" "PATCH DOES NOT APPLY: $(head -1 $T/apply.err)"; rm -rf "$T"; continue; fi
